@@ -1,5 +1,6 @@
 """C02 Laplace potential operators reproduce Green's representation formula (provable logic part)."""
 from props import _assemblyb as ab
+from translators import py_kernels
 
 ID = "C02"
 PROP_FILE = "props/C02.v"
@@ -27,6 +28,7 @@ SRC = ["bempp_cl/core/dense_potential_assembler.py", "bempp_cl/core/numba_kernel
 def regen(ctx):
     for s in SRC:
         ctx.src(s)
+    ctx.nb = ctx.translate(py_kernels.numba_kernels)  # gen/NumbaKernels.v for the kernel-derivative theorem
 
 
 def correspond(ctx):
